@@ -101,7 +101,12 @@ def file_case(st, Ws):
             if p.returncode != 0:
                 st.viol(f'source file with raw control characters in literals is rejected: {p.stderr.decode()[-200:]}', case)
                 continue
-            r = svm.run(svm.assemble(open(path + '.s', 'rb').read().split(b'\n'), [], strict_header=True), 1_000_000)
+            try:
+                P = svm.assemble(open(path + '.s', 'rb').read().split(b'\n'), [], strict_header=True)
+            except svm.AsmError as e:
+                st.viol(f'source file with raw characters in literals (W={W}): the assembler rejects the emitted assembly: {e}', case)
+                continue
+            r = svm.run(P, 1_000_000)
             st.vm(r)
             if r.outcome != 'loop' or r.output != want:
                 st.viol(f'source file with raw characters in literals (W={W}): prints {r.output!r}, the literals denote {want!r}', case)
